@@ -228,19 +228,23 @@ Proof.
   assert (E : sv_B sha256 modexp ex_sv61 = 623747955665026772) by (vm_compute; reflexivity).
   split; [|exact E]. unfold sv_srpB. rewrite E. vm_compute. reflexivity.
 Qed.
+Print Assumptions C18_accepts_hypotheses_satisfiable.
 
 Example C18_ex_right_password_accepted : ex_run ex_sv61 ex_pw [1; 2; 3; 4; 5; 6; 7; 8; 9]%N = true.
 Proof. vm_compute. reflexivity. Qed.
+Print Assumptions C18_ex_right_password_accepted.
 
 Example C18_ex_wrong_password_rejected :
   ex_run ex_sv61 (lit "correct horsf") [1; 2; 3; 4; 5; 6; 7; 8; 9]%N = false.
 Proof. vm_compute. reflexivity. Qed.
+Print Assumptions C18_ex_wrong_password_rejected.
 
 Example C18_ex_B_zero_refused :
   get_input_check_password sha256 ex_pbkdf2 modexp ex_pw (enc256 0) (Some (sv_params ex_sv61)) [1]%N = Err /\
   get_input_check_password sha256 ex_pbkdf2 modexp ex_pw (enc256 (sv_p ex_sv61)) (Some (sv_params ex_sv61)) [1]%N = Err /\
   get_input_check_password sha256 ex_pbkdf2 modexp ex_pw (repeat 1%N 247) (Some (sv_params ex_sv61)) [1]%N = Err.
 Proof. split; [|split]; vm_compute; reflexivity. Qed.
+Print Assumptions C18_ex_B_zero_refused.
 
 (* white space belongs to the password: the account's password is " hunter2 " (with the blanks);
    typing exactly that is accepted, typing the trimmed "hunter2" is rejected, and a password that is a
@@ -251,6 +255,7 @@ Example C18_ex_white_space_counts :
   ex_run ex_sv61ws (lit "hunter2") [7; 7; 7]%N = false /\
   ex_run (ex_server 2305843009213693951 3 5 [32]%N) [32]%N [7; 7; 7]%N = true.
 Proof. split; [|split]; vm_compute; reflexivity. Qed.
+Print Assumptions C18_ex_white_space_counts.
 
 (* different verifier is NOT enough for rejection: p = 7, g = 3, b = 5; the server holds the
    verifier of "a" (v = 1); the client types "b" (verifier 2) and is accepted, because
@@ -261,9 +266,11 @@ Example C18_different_verifier_not_enough :
   sv_v ex_sv7 = 1 /\ sv_register sha256 ex_pbkdf2 modexp [98]%N ex_s1 ex_s2 3 7 = 2 /\
   ex_run ex_sv7 [98]%N [42]%N = true.
 Proof. split; [|split]; vm_compute; reflexivity. Qed.
+Print Assumptions C18_different_verifier_not_enough.
 
 (* without the 2048-bit bound on p the low 2048 bits are what the code sends: A is no longer an
    encoding of g^a mod p (the model reproduces the code here; the server would not agree) *)
 Example C18_ex_oversized_p_truncates :
   enc256 (2 ^ 2048 + 5) = enc256 5.
 Proof. vm_compute. reflexivity. Qed.
+Print Assumptions C18_ex_oversized_p_truncates.
